@@ -49,30 +49,41 @@ class Chooser:
         return sum(costs[c] for c, _n, costs in tr)
 
 
-def choice_dfs(run: Callable[[Chooser], Any], bound: int, max_executions: int | None = None):
+def choice_dfs(run: Callable[[Chooser], Any], bound: int, max_executions: int | None = None, shard: tuple[int, int] | None = None):
     """Yield (chooser, observation) for every execution with total deviation cost <= bound.
 
     Every execution runs to completion. Alternatives are only branched at points beyond the replayed prefix, so each
-    choice sequence is executed exactly once."""
+    choice sequence is executed exactly once.
+
+    shard=(k, n): the search tree is split below its root - every shard runs the root execution (to learn its branching
+    points), shard 0 reports it, and the root's child prefixes are dealt round-robin to the n shards; the union of the
+    shards is exactly the unsharded enumeration."""
     stack: list[list[int]] = [[]]
     n = 0
+    root = True
     while stack:
         prefix = stack.pop()
         ch = Chooser(prefix)
         obs = run(ch)
         if len(ch.trace) < len(prefix):
             raise Divergence(f"execution ended after {len(ch.trace)} points, prefix has {len(prefix)}")
-        n += 1
-        yield ch, obs
+        if not (root and shard is not None and shard[0] != 0):
+            n += 1
+            yield ch, obs
         if max_executions is not None and n >= max_executions:
             return
         base = ch.cost(len(prefix))
+        children = []
         for i in range(len(prefix), len(ch.trace)):
             c, nalt, costs = ch.trace[i]
             for alt in range(nalt - 1, 0, -1):
                 if base + costs[alt] <= bound:
-                    stack.append(ch.choices[:i] + [alt])
+                    children.append(ch.choices[:i] + [alt])
             base += costs[c]
+        if root and shard is not None:
+            children = [c for j, c in enumerate(children) if j % shard[1] == shard[0]]
+        stack.extend(children)
+        root = False
 
 
 class BFSResult:
